@@ -116,9 +116,35 @@ func (un *Unit) locksetCheck(fr *Frame, st *State, obj string, structT types.Typ
 }
 
 // monitorOfLockPlace finds the monitor whose lock lives at place p (a field component H_pkg.T.mu keyed by the object).
+// ownerOfPointerLock: the lock is reached through a pointer field (x.mu where mu is *sync.RWMutex / *sync.Cond):
+// recognise `load(&x.f)` in the SSA argument and return x and the monitor declared on that field.
+func (un *Unit) ownerOfPointerField(fr *Frame, arg ssa.Value, wantCond bool) (*Monitor, string, types.Type) {
+	ld, ok := arg.(*ssa.UnOp)
+	if !ok || ld.Op != token.MUL {
+		return nil, "", nil
+	}
+	fa, ok := ld.X.(*ssa.FieldAddr)
+	if !ok {
+		return nil, "", nil
+	}
+	pt := fa.X.Type().Underlying().(*types.Pointer).Elem()
+	m := un.monitorFor(pt)
+	if m == nil {
+		return nil, "", nil
+	}
+	fname := pt.Underlying().(*types.Struct).Field(fa.Field).Name()
+	if (!wantCond && fname == m.Mu) || (wantCond && fname == m.Cond) {
+		return m, un.val(fr, fa.X).t, pt
+	}
+	return nil, "", nil
+}
+
 func (un *Unit) monitorOfLockPlace(p *Place) (*Monitor, string, types.Type) {
 	kind := un.compKind[p.comp]
 	if !strings.HasPrefix(kind, "field:") || len(p.keys) != 1 {
+		if un.callFrame != nil && len(un.curCallArgs) >= 1 {
+			return un.ownerOfPointerField(un.callFrame, un.curCallArgs[0], false)
+		}
 		return nil, "", nil
 	}
 	tf := strings.TrimPrefix(kind, "field:") // pkg.T.mu
@@ -149,6 +175,10 @@ func (un *Unit) onAcquire(fr *Frame, st *State, lp *Place, pos token.Pos) {
 	if m == nil {
 		return
 	}
+	un.acquireEffects(fr, st, m, obj, t)
+}
+
+func (un *Unit) acquireEffects(fr *Frame, st *State, m *Monitor, obj string, t types.Type) {
 	stt := t.Underlying().(*types.Struct)
 	// other threads may have changed everything the lock guards
 	for _, g := range m.Guards {
@@ -161,9 +191,16 @@ func (un *Unit) onAcquire(fr *Frame, st *State, lp *Place, pos token.Pos) {
 		key := m.Pkg + "." + m.Type + "." + g
 		c, _ := un.fieldComp(t, fi)
 		if !un.specs.Immutable[key] {
+			before := sel(un.get(st, c), obj)
 			fresh := un.u.freshConst("acq_"+g, un.u.sortOf(ft))
 			un.assume(st, un.typeFacts(st, fresh, ft))
 			un.set(st, c, sto(un.get(st, c), fresh, obj))
+			for _, mf := range m.Monotone {
+				if mf == g {
+					// rely: no thread ever resets this flag (every store to it is checked to keep it monotone)
+					un.assume(st, implies(before, fresh))
+				}
+			}
 		}
 		if mt, ok := ft.Underlying().(*types.Map); ok {
 			ref := sel(un.get(st, c), obj)
@@ -199,6 +236,10 @@ func (un *Unit) onRelease(fr *Frame, st *State, lp *Place, pos token.Pos) {
 	if m == nil {
 		return
 	}
+	un.releaseChecks(fr, st, m, obj, t, pos)
+}
+
+func (un *Unit) releaseChecks(fr *Frame, st *State, m *Monitor, obj string, t types.Type, pos token.Pos) {
 	sc := un.monitorScope(fr, st, m, obj, t)
 	for _, cl := range m.Invs {
 		tm, _ := un.evalSpec(cl.E, sc)
@@ -214,7 +255,48 @@ func (un *Unit) onRelease(fr *Frame, st *State, lp *Place, pos token.Pos) {
 	}
 }
 
+// condWait: sync.Cond.Wait atomically releases the monitor's lock, waits, and re-acquires it: the monitor invariant
+// must hold going in, and coming out everything the lock guards may have changed (and the invariant holds again).
 func (un *Unit) condWait(fr *Frame, st *State, cond Val, pos token.Pos) {
-	// the condition variable's lock is found through the contract option "cond-lock <field>" of the unit
-	un.outside = "sync.Cond.Wait outside a recognised monitor pattern"
+	if len(un.curCallArgs) < 1 {
+		un.outside = "sync.Cond.Wait outside a recognised monitor pattern"
+		return
+	}
+	m, obj, t := un.ownerOfPointerField(fr, un.curCallArgs[0], true)
+	if m == nil {
+		un.outside = "sync.Cond.Wait on a condition variable that no monitor declares (cond <field>)"
+		return
+	}
+	stt := t.Underlying().(*types.Struct)
+	mi := fieldIndex(stt, m.Mu)
+	c, _ := un.fieldComp(t, mi)
+	muT := stt.Field(mi).Type()
+	var lockVal string
+	if pt, isPtr := muT.Underlying().(*types.Pointer); isPtr {
+		lockVal = sel(un.get(st, un.cellComp(pt.Elem())), sel(un.get(st, c), obj))
+	} else {
+		lockVal = sel(un.get(st, c), obj)
+	}
+	un.lockObl(fr, st, "wait-holds-lock", "Cond.Wait is called with the monitor's lock held for writing", eq(lockVal, "2"), pos)
+	un.releaseChecks(fr, st, m, obj, t, pos)
+	un.acquireEffects(fr, st, m, obj, t)
+}
+
+
+// monotoneStore: a store to a field declared monotone must keep it monotone (guarantee side of the rely condition).
+func (un *Unit) monotoneStore(fr *Frame, st *State, p *Place, newVal string, pos token.Pos) {
+	kind := un.compKind[p.comp]
+	if !strings.HasPrefix(kind, "field:") || len(p.keys) != 1 {
+		return
+	}
+	tf := strings.TrimPrefix(kind, "field:")
+	for _, m := range un.specs.Monitors {
+		for _, mf := range m.Monotone {
+			if tf == m.Pkg+"."+m.Type+"."+mf {
+				old := un.loadPlace(st, p)
+				base := fmt.Sprintf("%s/monotone/%s.%s", funcKey(un.fn), m.Type, mf)
+				un.oblige(st, "monitor", un.uniqueName(base), m.Props, implies(old, newVal), pos, "a monotone flag is never reset")
+			}
+		}
+	}
 }
